@@ -372,6 +372,36 @@ func c12All(c *Check, P string) {
 	if len(waits) == 0 {
 		c.Floor(P+".O4", "blocking wait over exactly {ctx.Done(), timer(back-off)} in the retry loop (inline select or helper)", 0, 1)
 	}
+	// every step of the back-off is a wait: NextBackOff() is called for the wait's duration and for nothing else (a
+	// call made for a log field or a metric consumes an interval, and the next wait is one step too long)
+	nNB := 0
+	for _, f := range WithStarted(I) {
+		for _, cl := range CallsIn(f) {
+			if CalleeName(cl) != "(*github.com/cenkalti/backoff/v3.ExponentialBackOff).NextBackOff" {
+				continue
+			}
+			nNB++
+			feeds := false
+			for _, w := range waits {
+				if AnyOrigin(w.dur, func(o ssa.Value) bool { return o == CallValue(cl) }) {
+					feeds = true
+				}
+			}
+			c.Report(feeds, P+".O4", "BACKOFF-STEP-ONLY-FOR-THE-WAIT", f, cl.Pos(), "NextBackOff()", "every NextBackOff() call yields the duration of a wait (none is made for logging or reporting: each call advances the back-off)")
+		}
+	}
+	c.Floor(P+".O4", "NextBackOff() calls", nNB, 1)
+	// the MaxElapsedTime budget starts with the first failure, like the back-off clock: the first attempt is made
+	// outside it (a first attempt longer than the budget is still followed by retries)
+	for _, cl := range CallsTo(I, nWithTimeout) {
+		okAfter := len(outLoop) > 0
+		for _, hc := range outLoop {
+			if !Dominates(I, hc, cl) {
+				okAfter = false
+			}
+		}
+		c.Report(okAfter, P+".O4", "ELAPSED-TIME-STARTS-AFTER-THE-FIRST-ATTEMPT", I, cl.Pos(), "WithTimeout(MaxElapsedTime)", "the context that bounds the retrying is created after the first attempt has failed (MaxElapsedTime limits the time spent retrying, not the first attempt)")
+	}
 	// the MaxElapsedTime context stays alive while Retry waits: its cancel function is only ever deferred (called in
 	// place before the loop it ends the waiting at once, and Retry gives up after the first failure)
 	for _, cl := range CallsTo(I, nWithTimeout) {
